@@ -142,6 +142,22 @@ def gen(tier, rng):
                                       sig=key + "\n#prefix: " + " / ".join(pre) + " ; RUN ; " + rname + "\n#then " + final,
                                       tag="prefix-new-entry", meta=("hist", pi, "new-entry")))
             pi += 1
+    # ... and with nothing typed after the reset: the empty program answers every direct statement as a fresh interpreter does
+    # (nothing of the old compiled program -- code, line numbers, DATA -- is reachable)
+    pi = 600000
+    for final in ["RUN", "READ Q9:PRINT Q9", "GOTO 10", "GOSUB 70", "RESTORE 10", "RUN 20", "PRINT FNA(1)", "CONT", "RESTORE:READ Q9:PRINT Q9", "LIST"]:
+        cases.append(Case(sess.session(["R5000"] + final_run([], [], final)), sig="(empty program)\n#then " + final, tag="fresh", meta=("fresh", pi, None)))
+        for pre in NEW_PRES:
+            nums = [l.split(" ")[0] for l in pre]
+            for rname, rcalls in (("NEW", [sess.E("NEW"), "R5000"]),
+                                  ("every line deleted by its number", [sess.E(n) for n in nums]),
+                                  ("DELETE -65529", [sess.E("DELETE -65529"), "R5000"]),
+                                  ("NEW ; PRINT", [sess.E("NEW"), "R5000", sess.E('PRINT "x";'), "R5000"])):
+                calls = ["R5000"] + [sess.E(l) for l in pre] + [sess.E("RUN"), "R5000"] + rcalls
+                cases.append(Case(sess.session(calls + final_run([], [], final)),
+                                  sig="(empty program)\n#prefix: " + " / ".join(pre) + " ; RUN ; " + rname + "\n#then " + final,
+                                  tag="prefix-emptied", meta=("hist", pi, "emptied")))
+        pi += 1
     # NEW leaves an empty listing
     for pi in range(20):
         prog, inputs = gen_prog.generate(rng, features={"tron": False, "input": False})
